@@ -768,6 +768,17 @@ func (x *gen) campaignOnPendingSnapshot() {
 		c.exec(fmt.Sprintf("tick %d", l.id))
 		c.exec(fmt.Sprintf("process %d", l.id))
 		if i := x.netIndex(pb.MsgSnap, f.id); i >= 0 {
+			if x.g.Intn(3) == 0 {
+				// the other order: f has timed out and campaigns in a higher term when the snapshot
+				// of the old term arrives; a stale message must not take the term back
+				c.exec(fmt.Sprintf("campaign %d", f.id))
+				c.exec(fmt.Sprintf("process %d", f.id))
+				if j := x.netIndex(pb.MsgSnap, f.id); j >= 0 {
+					c.exec(fmt.Sprintf("deliver %d", j))
+				}
+				c.exec(fmt.Sprintf("process %d", f.id))
+				break
+			}
 			c.exec(fmt.Sprintf("deliver %d", i)) // stepped; the Ready that carries it is not handled yet
 			if x.g.Intn(2) == 0 {
 				c.exec(fmt.Sprintf("campaign %d", f.id))
@@ -1256,7 +1267,14 @@ func (x *gen) midTruncateQueued() {
 		return
 	}
 	c.exec(fmt.Sprintf("sub %d", f.id)) // ONE write with all of them, queued and not run
-	// a is cut off; another node wins the next term (it holds k but not k+1, k+2) and reaches f
+	variant := x.g.Intn(3)
+	if variant == 1 {
+		// the write runs: the storage holds the old leader's entries
+		for len(f.app.appendQ) > 0 && f.alive && !c.stopped {
+			c.exec(fmt.Sprintf("appendthread %d", f.id))
+		}
+	}
+	// a is cut off; another node wins the next term (it holds k but not k+1, k+2)
 	c.exec("unblock")
 	x.isolate(a)
 	for _, n := range rest {
@@ -1270,9 +1288,88 @@ func (x *gen) midTruncateQueued() {
 		x.isolate(a)
 		b = x.electAmong(rest, x.termOf(a), nil)
 	}
+	if b == nil {
+		c.exec("unblock")
+		c.exec("flush 8")
+		return
+	}
 	c.exec("unblock")
 	x.isolate(a)
-	if b != nil {
+	switch variant {
+	case 2:
+		// the new leader commits entries of its own with the others, snapshots inside f's unwritten
+		// tail and compacts; f, reconnected, can only be sent the snapshot
+		c.exec(fmt.Sprintf("block %d %d", b.id, f.id))
+		for i := 0; i < 2; i++ {
+			c.exec(fmt.Sprintf("propose %d", b.id))
+		}
+		for r := 0; r < 8 && !c.stopped; r++ {
+			c.exec(fmt.Sprintf("tick %d", b.id))
+			for _, n := range rest {
+				c.exec(fmt.Sprintf("process %d", n.id))
+			}
+			x.deliverAll()
+		}
+		// the snapshot lands on the second entry of f's unwritten tail
+		df := f.rn.VerifState()
+		target := df.UnstableOffset + 1
+		if !b.alive || b.rn == nil || b.app.applied < target {
+			c.exec("unblock")
+			c.exec("flush 8")
+			return
+		}
+		c.exec(fmt.Sprintf("snapshot %d %d", b.id, b.app.applied-target))
+		c.exec(fmt.Sprintf("compact %d 1000", b.id))
+		c.exec("unblock")
+		x.isolate(a)
+		x.net0()
+		for r := 0; r < 6 && !c.stopped; r++ {
+			for t := 0; t < b.cfg.HB; t++ {
+				c.exec(fmt.Sprintf("tick %d", b.id))
+			}
+			c.exec(fmt.Sprintf("process %d", b.id))
+			x.deliverAll()
+			c.exec(fmt.Sprintf("sub %d", f.id)) // f's first write is still queued when the snapshot arrives
+			x.deliverAll()
+		}
+	case 1:
+		// only f hears from the new leader, which overwrites from the second entry; the overwrite is
+		// not written yet, so the storage still ends with the old leader's entries
+		for _, n := range rest {
+			if n != b {
+				c.exec(fmt.Sprintf("block %d %d", b.id, n.id))
+			}
+		}
+		for r := 0; r < 3 && !c.stopped; r++ {
+			c.exec(fmt.Sprintf("process %d", b.id))
+			x.deliverAll()
+			c.exec(fmt.Sprintf("sub %d", f.id))
+			x.deliverAll()
+			for t := 0; t < b.cfg.HB; t++ {
+				c.exec(fmt.Sprintf("tick %d", b.id))
+			}
+		}
+		// the old leader comes back, wins a later term with the nodes that never saw the new
+		// leader's entries, and probes f beyond the end of f's log
+		c.exec("unblock")
+		x.isolate(b)
+		x.net0()
+		side := []*Node{a}
+		for _, n := range rest {
+			if n != b {
+				side = append(side, n)
+			}
+		}
+		// (f is not served meanwhile: its overwrite stays unwritten)
+		if x.electAmong(side, x.termOf(b), a) == a {
+			for r := 0; r < 2 && !c.stopped; r++ {
+				c.exec(fmt.Sprintf("process %d", a.id))
+				x.deliverAll()
+				c.exec(fmt.Sprintf("sub %d", f.id))
+				x.deliverAll()
+			}
+		}
+	default:
 		for r := 0; r < 4 && !c.stopped; r++ {
 			c.exec(fmt.Sprintf("process %d", b.id))
 			x.deliverAll()
